@@ -104,6 +104,7 @@ type gen struct {
 	// ambient facts that boxes further down must agree with
 	origFormat string   // inside encv/enca: the sample entry type the configuration box belongs to (frma)
 	enc        *encSpec // inside sinf: protection scheme and track encryption defaults (schm, tenc)
+	allEnc     bool     // File builders: a protected presentation (every audio/video track is encv/enca)
 }
 
 func (g *gen) rng(label string, lo, hi int) int {
